@@ -231,3 +231,24 @@ def iter {α} (f : α → α) : Nat → α → α
   | n + 1, a => iter f n (f a)
 
 end SMV
+
+namespace SMV
+
+/-- the operations a caller outside any callback can perform on one machine -/
+inductive Op
+  | construct
+  | send (e : EventId)
+  | activate
+deriving Repr, DecidableEq
+
+def stepOp (m : Machine) (o : Opts) (fuel : Nat) : Op → EM Res
+  | .construct => do construct m o fuel; pure .none
+  | .send e => send m o fuel e
+  | .activate => activateOp m o fuel
+
+/-- a history of operations; an exception reaches the caller, who carries on with the next one -/
+def runOps (m : Machine) (o : Opts) (fuel : Nat) : List Op → Cfg → Cfg
+  | [], c => c
+  | op :: ops, c => runOps m o fuel ops (stepOp m o fuel op c).1
+
+end SMV
